@@ -31,7 +31,7 @@ LEVEL_NOTE = ("fallback = harness double implementing FallbackMetricFetcher over
               "engine and streams continue 6 indices past the checked range")
 RULE = ("random scripts N=8..40 indices; distinct = canonical script JSON; non-trivial = primary invalid at >=1 index "
         "where the fallback is valid and started, and primary valid again later (or closed)")
-REQUIRED_BUCKETS = ["primary-closed", "primary-raises", "fallback-closed", "fallback-late-start", "lag:-1", "lag:0",
+REQUIRED_BUCKETS = ["primary-closed", "primary-raises", "primary-raises-while-fallback-in-step", "fallback-closed", "fallback-late-start", "lag:-1", "lag:0",
                     "lag:1", "lag:2", "recovery-to-primary", "both-invalid", "fallback-value-used",
                     "primary-closed-before-any-failure", "other-terms:0", "other-terms:2",
                     "tier-B(real FallbackFormulaMetricFetcher)"]
@@ -371,7 +371,13 @@ def check(case: dict[str, Any], rec: Any) -> None:
     # dropped and the evaluator re-synchronises. Permitted (bounded) window: the fallback's first sample may be
     # skip + lag rounds away, + 1 dropped round + 2 rounds of re-synchronisation.
     post = range(0)
-    if fault in ("close_primary", "raise_primary"):
+    # a receiver error (not a stop) on the primary while the fallback is already running and in step: the term is
+    # simply taken from the fallback for that timestamp, nothing is dropped -> no post-fault allowance
+    in_step_before = (fault == "raise_primary" and case.get("tier") != "B" and fat >= 3
+                      and any(not pm[k] for k in range(fat - 1)) and any(x <= fat - 1 for x in recv))
+    if in_step_before:
+        rec.bucket("primary-raises-while-fallback-in-step")
+    if fault in ("close_primary", "raise_primary") and not in_step_before:
         # (the fallback sample read at the failure can also be up to lag+1 rounds *older* than the round)
         lo = fat - max(case["lag"], 0) - 1
         r = next((x for x in recv if x >= lo), None)  # first fallback index delivered around/after the failure
